@@ -21,7 +21,7 @@
 From AV Require Import Base.Bytes Base.Outcome Hash.HashModel Tree.Heap Tree.Ops Tree.Script.
 From AV Require Import Tree.Index Tree.IndexProofs Tree.Refs Tree.RefsProofsReport Tree.RefsProofsOps Tree.IndexProofsTiny.
 From AV Require Import Tree.Inv Spec.SpecReal Tree.CheckFn Tree.IndexProofsClosed Tree.IndexProofsTinyMove.
-From AV Require Import Tree.RefsAll Tree.IndexProofsNodeInv Tree.IndexProofsAll.
+From AV Require Import Tree.RefsAll Tree.IndexProofsNodeInv Tree.IndexProofsAll Tree.Script2 Tree.IndexProofsOp2.
 Import Tiny.
 Open Scope list_scope.
 Open Scope N_scope.
@@ -163,6 +163,37 @@ Theorem C05_history_all_real :
   run_ops RT tab_el tab_en (check_fn_model dfas) LATEST root_attrs l empty_world = Val w' ->
   TreeFacts w' /\ Inv04 RT (check_fn_model dfas) w' /\ Inv05 RT w'.
 Proof. exact C04_C05_history_all_rt. Qed.
+
+(* ---------- the extended alphabet op2 (Tree/Script2.v), as far as it is cheap: the 26 constructors, set_version,
+   check_version_compatibility, serialize (file / element).  Pending45_2: sort (element / model), duplicate, load_buffer. *)
+Theorem C45_inv2_partial :
+  forall (T : tables) (tab_el tab_at tab_en : nametab) (check_fn : N -> list N -> res bool)
+         (float_parse : list N -> option N) (float_fmt : N -> list N)
+         (LATEST name_index name_definition_ref attr_schema_location : N) (root_attrs : list (N * cdata)),
+  TablesOK T check_fn ->
+  (forall ty, et_new T (autosar_element T) = Val ty -> plainty T ty) ->
+  forall (w : world) (o : op2) (r : out value2) (w' : world),
+  TreeFacts w -> Inv04 T check_fn w -> Inv05 T w -> RX T w ->
+  Known45_2 T tab_el tab_en check_fn LATEST root_attrs w o = false -> Pending45_2 o = false ->
+  run_op2 T tab_el tab_at tab_en check_fn float_parse float_fmt LATEST name_index name_definition_ref attr_schema_location
+          root_attrs o w = Val (r, w') ->
+  Inv04 T check_fn w' /\ Inv05 T w' /\ RX T w'.
+Proof. exact IndexProofsOp2.C45_inv2_partial. Qed.
+
+Theorem C45_history2_partial :
+  forall (T : tables) (tab_el tab_at tab_en : nametab) (check_fn : N -> list N -> res bool)
+         (float_parse : list N -> option N) (float_fmt : N -> list N)
+         (LATEST name_index name_definition_ref attr_schema_location : N) (root_attrs : list (N * cdata)),
+  TablesOK T check_fn ->
+  (forall ty, et_new T (autosar_element T) = Val ty -> plainty T ty) ->
+  forall (l : list op2) (w w' : world),
+  Inv04 T check_fn w -> Inv05 T w -> RX T w ->
+  steps_ok2 T tab_el tab_at tab_en check_fn float_parse float_fmt LATEST name_index name_definition_ref attr_schema_location
+            root_attrs l w ->
+  run_hist2 T tab_el tab_at tab_en check_fn float_parse float_fmt LATEST name_index name_definition_ref attr_schema_location
+            root_attrs l w = Val w' ->
+  Inv04 T check_fn w' /\ Inv05 T w' /\ RX T w'.
+Proof. exact IndexProofsOp2.C45_history2_partial. Qed.
 
 Theorem C05_report :
   forall (T : tables) (check_fn : N -> list N -> res bool) (w : world) (m : N) (r : out (list id)) (w' : world),
